@@ -49,12 +49,15 @@ theorem done_mono (s : St) (a : Act) (s' : St) (h : step s a = some s') (f : Nat
   | cbCancelled d =>
     simp only [step] at h
     split at h
-    · split at h
-      · cases h; simp only; split
-        · exact hf
-        · exact List.mem_append_left _ hf
-      · cases h
+    · split at h <;> cases h; exact hf
     · cases h
+  | cbMark g d i =>
+    simp only [step] at h
+    (repeat' split at h) <;> first
+      | (cases h; exact hf)
+      | (cases h; simp only; split <;> first | exact hf | exact List.mem_append_left _ hf)
+      | (cases h; exact List.mem_append_left _ hf)
+      | cases h
   | cbPolicy d r =>
     simp only [step] at h
     split at h
